@@ -6,7 +6,9 @@
      pulses/sequence_pulse_template  SequencePT._internal_create_program          (PSeq; ForLoopPT is PSeq over the
      pulses/loop_pulse_template      ForLoopPT._internal_create_program            unrolled, index-instantiated bodies)
      pulses/repetition_pulse_templ.  RepetitionPT._internal_create_program
-     pulses/mapping_pulse_template   MappingPT._internal_create_program (channel renaming only)
+     pulses/mapping_pulse_template   MappingPT._internal_create_program (channel and measurement renaming)
+     pulses/function_pulse_template  FunctionPT (affine expression), multi_channel_pulse_template AtomicMultiChannelPT
+                                     (one PAtom over the union of the sub-atoms)
      pulses/multi_channel_pulse_t.   ParallelChannelPT._internal_create_program (chains the global transformation
                                      BEFORE its own overwrite)
      pulses/arithmetic_pulse_templ.  ArithmeticPT._get_transformation/_internal_create_program (scalar operand)
@@ -18,7 +20,8 @@
                                      RepetitionWaveform, TransformingWaveform, ReversedWaveform: unsafe_sample read
                                      pointwise, constant_value_dict, from_sequence, from_repetition_count,
                                      from_transformation, reversed()
-     program/transformation.py       Offset/Scaling/ParallelChannel/Linear transformations, chain order
+     program/transformation.py       Offset/Scaling/ParallelChannel/Linear transformations, chain order,
+                                     get_input_channels / get_output_channels / keys of __call__ with KeyError explicit
 
    Time is counted in integer ticks (Z): every duration, table time, window and sample time of a case is a multiple
    of the sampling step chosen by the harness; voltages are exact rationals; NaN is None. *)
